@@ -22,3 +22,12 @@ package fasta
 //@   ensures [value-or-error] result0 != nil || result1 != nil
 //@   loop 1 invariant wfReader(r) && (fresh(line) || arr(line) == 0)
 //@   loop 1 writes fresh
+
+// The byte count returned by Write equals the number of bytes the underlying writer accepted,
+// on every exit (success or error).
+//@ func (*Writer).Write
+//@   property C01
+//@   requires w != nil && w.w != nil && w.Width > 0 && s != nil
+//@   ensures [bytes] n == emitted(w.w) - old(emitted(w.w))
+//@   loop 1 invariant w != nil && w.w != nil && w.w == old(w.w) && w.Width > 0 && i >= 0 && n == emitted(w.w) - old(emitted(w.w))
+//@   loop 1 invariant fresh(prefix) && fresh(header)
